@@ -405,5 +405,15 @@ def r10_override_presence(chk: Check) -> None:
     chk.decide(True if (members or gets) else None, "C14.R10", fn, "_for_parameters selects the overrides of an operation by parameter name", "selection idiom not recognised", fn.loc())
 
 
+def r11_memo(chk: Check) -> None:
+    from . import shared
+
+    P = chk.project
+    mods = ('auths.py', 'generation/overrides.py', 'engine/context.py', 'engine/phases/unit/__init__.py', 'engine/phases/stateful/_executor.py', 'generation/hypothesis/builder.py', 'transport/prepare.py', 'transport/requests.py', 'specs/openapi/checks.py', 'specs/openapi/_hypothesis.py')
+    fns = [f for m in mods if m in P.by_relpath for f in P.module(m).functions.values() if not isinstance(f.node, ast.Lambda)]
+    shared.memo_key_rule(chk, "C14.R11", fns, {("_set_cache_entry", "data"): "a setter: the value to store is handed in by get(), which computed it for this key", ("_get_body_strategy", "operation"): "a parameter belongs to exactly one operation (stated next to the cache)"},
+                         "MEMO-KEY(anchor modules of this property): credentials / overrides are looked up per provider, key and context: a cache keyed by less hands one context's token to another", floor=0)
+
+
 def rules(tier: str) -> list:  # type: ignore[type-arg]
-    return [r1_overrides, r2_network_config, r3_precedence, r4_set_on_case, r5_lock, r6_strip_auth, r7_merge, r8_sanitizer_on_copies, r9_dead_parameters, r10_override_presence, rfwd_forwarding]
+    return [r1_overrides, r2_network_config, r3_precedence, r4_set_on_case, r5_lock, r6_strip_auth, r7_merge, r8_sanitizer_on_copies, r9_dead_parameters, r10_override_presence, rfwd_forwarding, r11_memo]
